@@ -70,6 +70,26 @@ def store(a, fmt):
     return sp.csr_matrix(a).asformat(fmt)
 
 
+def make_op(seed, kind, shape, dtype):
+    """make_array plus integer blocks: `bigint` entries are odd and up to 2**26 in magnitude (not representable in
+    single precision), `int` entries are in -2..2, so a product with one bigint factor is exact in int64 and float64."""
+    if dtype == "int64":
+        rng = np.random.default_rng(int(seed))
+        shape = tuple(int(x) for x in shape)
+        if kind == "bigint":
+            return (2 * rng.integers(-2 ** 25, 2 ** 25, size=shape) + 1).astype(np.int64)
+        return rng.integers(-2, 3, size=shape).astype(np.int64)
+    return A.make_array(seed, kind, shape, dtype)
+
+
+def int_kinds(ops):
+    """Integer family: exactly one big-integer factor, the rest small integers."""
+    for i, o in enumerate(ops):
+        o["dtype"] = "int64"
+        o["kind"] = "bigint" if i == 0 else "int"
+    return ops
+
+
 def is_sparse_fmt(fmt):
     return fmt in FMTS
 
@@ -223,6 +243,7 @@ def s_kron_formats(draw, tier):
     dvals = (1, 2, 3, 4) if n <= 4 else (1, 2, 3)
     shape_kind = draw(st.sampled_from(["op", "op", "ket", "bra", "rect", "any"]))
     dt0 = draw(s_dtype)
+    ints = draw(st.integers(0, 5)) == 0  # integer blocks (docstring example of kron uses them)
     single = dt0 in ("float32", "complex64")
     ops = []
     for _ in range(n):
@@ -231,6 +252,11 @@ def s_kron_formats(draw, tier):
         shape = {"op": (d, d), "ket": (d, 1), "bra": (1, d), "rect": (d, draw(st.sampled_from(dvals)))}[sk]
         dt = draw(st.sampled_from(["float32", "complex64"] if single else ["float64", "complex128"]))
         ops.append({"shape": list(shape), "fmt": draw(s_fmt), "kind": draw(s_kind), "seed": draw(A.seeds), "dtype": dt})
+    if ints:
+        int_kinds(ops)
+        if draw(st.booleans()):
+            for o in ops:  # the precision question only arises on the all-dense path
+                o["fmt"] = draw(st.sampled_from(["dense", "ndarray"]))
     any_sparse = any(is_sparse_fmt(o["fmt"]) for o in ops)
     # sparse-only options are mostly drawn when something is sparse (documented: they concern sparse results)
     allow = any_sparse or draw(st.integers(0, 7)) == 0
@@ -251,7 +277,10 @@ def run_kron_formats(case):
     specs = case["ops"]
     if route == "kronpow":
         specs = [specs[0]] * case["power"]
-    arrs = [A.make_array(o["seed"], o["kind"], o["shape"], o["dtype"]) for o in specs]
+        if specs[0]["dtype"] == "int64" and case["power"] > 1:
+            specs = [dict(specs[0], kind="int")] * case["power"]  # bigint**p would leave the exact range
+    arrs = [make_op(o["seed"], o["kind"], o["shape"], o["dtype"]) for o in specs]
+    ints = any(o["dtype"] == "int64" for o in specs)
     fm = [o["fmt"] for o in specs]
     if route == "and":
         fm = ["dense" if f == "ndarray" else f for f in fm]  # & on a bare ndarray is numpy's bitwise and
@@ -297,11 +326,16 @@ def run_kron_formats(case):
         raise Violation("container", got=type(X).__name__, **info)
     if any_sparse and kw.get("stype") and X.format != kw["stype"]:
         raise Violation("stype-ignored", entry="kron", got=X.format, want=kw["stype"])
+    if ints:
+        Xd = dense(X)
+        ei = rel_err(Xd, ref, floor=mag) if Xd.shape == ref.shape else float("inf")
+        if Xd.shape == ref.shape and tol < ei < 1e-6:  # single-precision rounding scale; anything larger is a plain value error
+            raise Violation("int-precision", entry="kron", got_dtype=str(Xd.dtype), err=ei, sparse_in=any_sparse)
     e = check_close(X, ref, tol, mag, **info)
     shapes = {tuple(o["shape"]) for o in specs}
     return {"nt": len(specs) >= 3 and len(shapes) >= 2 and (any_sparse or own is not None),
             "cls": ["route=" + route, "sparse" if any_sparse else "dense"] + ["fmt=" + f for f in set(fm)] +
-                   ["opt=" + k for k in kw] + ["n=%d" % len(specs)], "err": e}
+                   ["opt=" + k for k in kw] + ["n=%d" % len(specs)] + (["int64"] if ints else []), "err": e}
 
 
 # ---------------------------------------------------------------------------
@@ -352,6 +386,11 @@ def s_ikron(draw, tier):
             for i, ind in enumerate(inds):
                 dims[ind] = sizes[i % k]
         ops = [op(s) for s in sizes]
+    if draw(st.integers(0, 6)) == 0:
+        int_kinds(ops)
+        if draw(st.booleans()):
+            for o in ops:
+                o["fmt"] = draw(st.sampled_from(["dense", "ndarray"]))
     any_sparse = any(is_sparse_fmt(o["fmt"]) for o in ops)
     sparse = draw(st.sampled_from([None, None, True, False]))
     span = mode == "overlay" and len(inds) < max(inds) - min(inds) + 1
@@ -385,7 +424,11 @@ def run_ikron(case):
     for o in specs:
         if o["size"] < 1:
             raise Reject("empty operator")
-    arrs = [A.make_array(o["seed"], o["kind"], (o["size"], o["size"]), o["dtype"]) for o in specs]
+    ints = any(o["dtype"] == "int64" for o in specs)
+    if ints and case["mode"] in ("sites", "auto") and len(case["inds"]) > len(specs):
+        # the big-integer operator would be placed more than once: its powers leave the exact int64 / float64 range
+        specs = [dict(o, kind="int") for o in specs]
+    arrs = [make_op(o["seed"], o["kind"], (o["size"], o["size"]), o["dtype"]) for o in specs]
     ops = [store(a, o["fmt"]) for a, o in zip(arrs, specs)]
     facs = ikron_reference(case, arrs)
     ref = kron_all(facs)
@@ -434,6 +477,11 @@ def run_ikron(case):
         raise Violation("container", got=type(X).__name__, **info)
     if sp.issparse(X) and kw.get("stype") and X.format != kw["stype"]:
         raise Violation("stype-ignored", entry="ikron", got=X.format, want=kw["stype"])
+    if ints:
+        Xd = dense(X)
+        ei = rel_err(Xd, ref, floor=mag) if Xd.shape == ref.shape else float("inf")
+        if Xd.shape == ref.shape and tol < ei < 1e-6:
+            raise Violation("int-precision", entry="ikron", got_dtype=str(Xd.dtype), err=ei, sparse_in=any_sparse)
     e = check_close(X, ref, tol, mag, **info)
     il = case["inds"] if isinstance(case["inds"], list) else [case["inds"]]
     dd = [abs(d) for d in case["dims"]]
@@ -441,7 +489,7 @@ def run_ikron(case):
             "cls": ["mode=" + case["mode"] + ("-span" if case.get("span") else ""), "sparse_in" if any_sparse else "dense_in",
                     "nops=%d" % len(ops)] +
                    ["opt=" + k for k in kw] + (["unsorted"] if unsorted(il) else []) +
-                   (["has1"] if 1 in case["dims"] else []), "err": e}
+                   (["has1"] if 1 in case["dims"] else []) + (["int64"] if ints else []), "err": e}
 
 
 # ---------------------------------------------------------------------------
@@ -519,7 +567,7 @@ def s_pkron(draw, tier):
     sparse = draw(st.sampled_from([None, None, True]))
     will_sparse = is_sparse_fmt(fmt) or sparse is True
     allow = will_sparse or draw(st.integers(0, 9)) == 0
-    return {"dims": dims, "inds": inds, "fmt": fmt, "kind": draw(s_kind), "seed": draw(A.seeds), "dtype": draw(s_dtype),
+    return {"dims": dims, "inds": inds, "fmt": fmt, "kind": draw(s_kind), "seed": draw(A.seeds), "dtype": draw(st.sampled_from(["float64", "complex128", "complex128", "float32", "complex64", "int64"])),
             "sparse": sparse, "stype": draw(st.sampled_from([None] * 6 + ["csr"] + list(FMTS))) if allow else None,
             "coo_build": draw(st.booleans()) if allow else False, "inds_as": draw(st.sampled_from(["list", "tuple", "array"]))}
 
@@ -528,7 +576,8 @@ def run_pkron(case):
     qu = Q()
     dims, inds = case["dims"], case["inds"]
     sz = prod(dims[i] for i in inds)
-    a = A.make_array(case["seed"], case["kind"], (sz, sz), case["dtype"])
+    ints = case["dtype"] == "int64"
+    a = make_op(case["seed"], "bigint" if ints else case["kind"], (sz, sz), case["dtype"])
     op = store(a, case["fmt"])
     ref = embed(a, dims, inds)
     rest = prod(dims) // sz
@@ -554,13 +603,19 @@ def run_pkron(case):
         raise Violation("sparse-option-ignored", entry="pkron", has_identity=rest > 1, sparse_in=sparse_in)
     if sp.issparse(X) != result_sparse and case["sparse"] is not True:
         raise Violation("container", got=type(X).__name__, **info)
+    if ints:
+        Xd = dense(X)
+        ei = rel_err(Xd, ref, floor=mag) if Xd.shape == ref.shape else float("inf")
+        if Xd.shape == ref.shape and EXACT64 < ei < 1e-6:
+            raise Violation("int-precision", entry="pkron", got_dtype=str(Xd.dtype), err=ei, sparse_in=sparse_in)
     e = check_close(X, ref, tol_dt(case["dtype"]), mag, **info)
     # only after the value is known to be right: the documented output format option
     if sp.issparse(X) and kw.get("stype") and X.format != kw["stype"]:
         raise Violation("stype-ignored", entry="pkron", got=X.format, want=kw["stype"])
     return {"nt": len(dims) >= 3 and mixed(dims) and unsorted(inds),
             "cls": ["fmt=" + case["fmt"], "m=%d" % len(inds), "n=%d" % len(dims)] + ["opt=" + k for k in kw] +
-                   (["unsorted"] if unsorted(inds) else []) + (["has1"] if 1 in dims else []), "err": e}
+                   (["unsorted"] if unsorted(inds) else []) + (["has1"] if 1 in dims else []) + (["int64"] if ints else []),
+            "err": e}
 
 
 # ---------------------------------------------------------------------------
@@ -647,7 +702,7 @@ def run_permute(case):
 def make_state(case, D):
     """(dense array, is_ket) for the drawn state kind."""
     what, dt = case["what"], case["dtype"]
-    if what == "ket":
+    if what in ("ket", "bra"):
         return A.rand_state(case["seed"], D, dt).reshape(D, 1), True
     if what == "ket_sparse":
         psi = A.make_array(case["seed"], "sparse", (D, 1), dt)
@@ -689,7 +744,7 @@ def s_ptr(draw, tier, sparse):
     if draw(st.booleans()):
         keep = sorted(keep)
     return {"dims": dims, "shape": shape, "keep": keep, "seed": draw(A.seeds), "aseed": draw(A.seeds),
-            "what": draw(st.sampled_from(["ket", "ket", "rho", "rho", "rho_lowrank", "herm", "diag", "ket_sparse"])),
+            "what": draw(st.sampled_from(["ket", "ket", "bra", "rho", "rho", "rho_lowrank", "herm", "diag", "ket_sparse"])),
             "dtype": draw(s_dtype64) if sparse else draw(st.sampled_from(["float64", "complex128", "complex128", "complex64"])),
             "fmt": draw(st.sampled_from(["csr", "csr", "csc", "csc", "coo", "bsr"])) if sparse else draw(st.sampled_from(["dense", "ndarray"])),
             "keep_int": m == 1 and draw(st.booleans()), "dims_as": draw(st.sampled_from(["list", "tuple", "array"])),
@@ -707,7 +762,9 @@ def run_ptr(case):
     ks = sorted(keep)
     ref = ptrace(x, dims, ks)
     mag = float(np.linalg.norm(x)) ** (2 if is_ket else 1) * (1.0 if is_ket else np.sqrt(D))
-    p = store(x, case["fmt"])
+    bra = case["what"] == "bra"
+    # a bra <psi| denotes the same state as |psi>: its reduced state is that of the ket (not its conjugate)
+    p = store(x.conj().T if bra else x, case["fmt"])
     nd = len(shape)
     if nd == 1:
         dims_arg = {"list": list, "tuple": tuple, "array": np.array}[case["dims_as"]](dims)
@@ -737,6 +794,11 @@ def run_ptr(case):
 
     R = do_ptr(p, via)
     Rd = dense(R)
+    if bra:
+        eb = rel_err(Rd, ref, floor=mag) if Rd.shape == ref.shape else float("inf")
+        if not eb <= tol:
+            ec = rel_err(Rd, ref.conj(), floor=mag) if Rd.shape == ref.shape else float("inf")
+            raise Violation("ptr-bra", sparse_in=sparse_in, conjugated=bool(ec <= tol), err=eb)
     if Rd.shape != ref.shape:
         raise Violation("shape", entry="ptr", got=list(Rd.shape), want=list(ref.shape), kept_dim=kept_dim, has1=1 in dims, **info)
     e = check_close(Rd, ref, tol, mag, entry="ptr", **info)
